@@ -1940,13 +1940,13 @@ pub fn run(run: &Run) {
 	}
 	run.enumerate("oracle-selftest", SELFTESTS, selftest);
 	run.reproduce_known(|k| decide_text(run, &k.replay));
-	let n = run.tier.pick(2_000, 60_000);
+	let n = run.tier.pick(6_000, 60_000);
 	run.explore("yaml", 2 * n, 20..=260, |src| yaml_case(run, src));
 	run.explore("toml", n + n / 2, 20..=260, |src| toml_case(run, src));
 	run.explore("python", n, 20..=260, |src| python_case(run, src));
 	run.explore("xml", n, 20..=200, |src| xml_case(run, src));
 	run.explore("ini", n, 20..=200, |src| ini_case(run, src));
-	run.explore("rejected", run.tier.pick(1_500, 30_000), 10..=120, |src| reject_case(run, src));
+	run.explore("rejected", run.tier.pick(4_500, 45_000), 10..=120, |src| reject_case(run, src));
 	if survey() {
 		let m = SURVEY_SEEN.lock().unwrap();
 		for (k, v) in m.iter() {
